@@ -175,6 +175,71 @@ func init() {
 		}
 	}}
 
+	// ops.add2: two shifts in a row on the same list (nothing is remembered from the first call)
+	streams["ops.add2"] = stream{exec: func(a []string) string {
+		d1, d2, spare := atoi64(a[0]), atoi64(a[1]), int(atoi64(a[2]))
+		xs, _ := decMItems(a[3:])
+		s, ids := buildSubs(xs, spare)
+		s.Add(time.Duration(d1))
+		s.Add(time.Duration(d2))
+		return encMItems(observe(s.Items, ids))
+	}, gen: func(c *ctx) {
+		r := newRng(c.seed, "ops.add2")
+		n := 8000
+		if c.thorough {
+			n = 400000
+		}
+		for i := 0; i < n; i++ {
+			xs := randList(r, 6, true)
+			d1 := -r.rangeI(0, maxEnd(xs)/int64(time.Millisecond)+10) * int64(time.Millisecond)
+			d2 := -d1
+			if r.chance(1, 3) {
+				d2 = r.rangeI(-5000, 5000) * int64(time.Millisecond)
+			}
+			if r.chance(1, 5) {
+				d1 = -d1
+			}
+			c.do(fmt.Sprintf("ops.add2 %d %d %d %s", d1, d2, r.intn(3), encMItems(xs)))
+			c.count("random")
+		}
+	}}
+
+	// ops.frag2: cut, move every cue by hand (the fields are public), cut again with the same period or a multiple
+	streams["ops.frag2"] = stream{exec: func(a []string) string {
+		f, g, shift, spare := atoi64(a[0]), atoi64(a[1]), atoi64(a[2]), int(atoi64(a[3]))
+		xs, _ := decMItems(a[4:])
+		s, ids := buildSubs(xs, spare)
+		s.Fragment(time.Duration(f))
+		for _, it := range s.Items {
+			it.StartAt += time.Duration(shift)
+			it.EndAt += time.Duration(shift)
+		}
+		s.Fragment(time.Duration(g))
+		return encMItems(observe(s.Items, ids))
+	}, gen: func(c *ctx) {
+		r := newRng(c.seed, "ops.frag2")
+		n := 6000
+		if c.thorough {
+			n = 300000
+		}
+		for i := 0; i < n; i++ {
+			xs := randList(r, 5, true)
+			for j := range xs {
+				xs[j].start = r.rangeI(0, 20) * int64(time.Second)
+				xs[j].end = xs[j].start + r.rangeI(0, 8)*int64(time.Second)
+			}
+			sortByStart(xs)
+			f := r.rangeI(1, 5) * int64(time.Second)
+			g := f * r.rangeI(1, 3)
+			if r.chance(1, 6) {
+				g = r.rangeI(1, 5) * int64(time.Second)
+			}
+			shift := r.rangeI(0, 2*f/int64(time.Millisecond)) * int64(time.Millisecond)
+			c.do(fmt.Sprintf("ops.frag2 %d %d %d %d %s", f, g, shift, r.intn(3), encMItems(xs)))
+			c.count("random")
+		}
+	}}
+
 	streams["ops.forceduration"] = stream{exec: func(a []string) string {
 		d, b, spare := atoi64(a[0]), a[1] == "1", int(atoi64(a[2]))
 		xs, _ := decMItems(a[3:])
